@@ -13,14 +13,24 @@ Conventions asserted (from the support page / C06):
   assign -> an instance of SDN_VERILOG_ASSIGNMENT_<width> (library SDN_VERILOG_ASSIGNMENT, ports i/o) joining rhs to i, lhs to o;
   1'b0 / 1'b1 -> nets \\<const0> / \\<const1>; parameters -> VERILOG.Parameters, (* *) -> VERILOG.InlineConstraints;
   a header port alias .p({a, b}) makes port p as wide as the list, its pins joined MSB-first to the listed 1-bit nets, and no cable p;
+  several (* *) groups in front of one construct (module, instantiation, wire declaration) are combined into one set (support page,
+  "Inline Constraints"); a name given twice keeps its last value (IEEE 1364-2001 2.8);
   the single root module is the top.
+
+Header aliases in the AD: d['aliases'][port] is the MSB-first list of what the port's pins are joined to; an entry is either the name of
+a 1-bit net (the single-bit breakout of the support page) or [net, bit] (a bit of a vector net, which may be the net that carries the
+port's own name).  alias_shapes() below produces the second kind.
 
 style (JSON-able, part of the replay):
   seed, order ('shuffle'|'top-first'|'bottom-up'), header ('ansi'|'names'|'mixed'), redeclare (port nets also declared as wire),
   maps ('named'|'positional'|'mixed'), split (probability of cutting a run), whole (probability of the bare identifier for a
   full-width run), const ('literal'|'named'), implicit (probability that a 1-bit net is left undeclared), unconn ('empty'|'omit'|'mixed'),
   comments, leaf ('celldefine'|'undeclared'|'plain'|'mixed'), esc_term (' '|'\\t'|'\\n'), group_decl, timescale, brace1,
-  prim_body ('junk'|'empty'|'mixed': behavioural filler inside `celldefine modules, which the reader is documented to skip)
+  prim_body ('junk'|'empty'|'mixed': behavioural filler inside `celldefine modules, which the reader is documented to skip),
+  attr_groups (probability that the attributes of one construct are written as several separate (* *) groups), attr_dup (probability that
+  such a construct also gets an earlier group giving one of its names another, overridden, value), port_attr (probability of a (* *) group
+  in front of a body port declaration: accepted, not represented, must not leak onto the next construct),
+  alias_split (probability of cutting a descending run of bits inside a header alias expression instead of writing a part-select)
 """
 import random, json
 
@@ -35,7 +45,182 @@ def make_style(seed, variant=0):
             'implicit': r.choice([0, 0.3, 1.0]), 'unconn': r.choice(['empty', 'omit', 'mixed']), 'comments': r.choice([0, 0.05, 0.15]),
             'leaf': r.choice(['celldefine', 'undeclared', 'plain', 'mixed', 'mixed']), 'esc_term': r.choice([' '] * 8 + ['\t', '\n']),
             'group_decl': r.random() < 0.3, 'timescale': r.random() < 0.5, 'brace1': r.choice([0, 0.15]),
-            'prim_body': r.choice(['junk', 'mixed', 'empty'])}
+            'prim_body': r.choice(['junk', 'mixed', 'empty']),
+            # drawn last so that the keys above keep the values they always had for a given (seed, variant)
+            'attr_groups': r.choice([0, 0.5, 1.0, 1.0]), 'attr_dup': r.choice([0, 0, 0.3]), 'port_attr': r.choice([0, 0, 0.3]),
+            'alias_split': r.choice([0, 0.3, 1.0])}
+
+
+def alias_cables(d):
+    """names of the nets that appear in the header aliases of a definition"""
+    return set(x if isinstance(x, str) else x[0] for al in (d.get('aliases') or {}).values() for x in al)
+
+
+ALIAS_KINDS = ['own-permuted', 'own-offset', 'own-subrange', 'own-mixed', 'other', 'shared']
+
+
+def alias_shapes(ad, r, p=0.5, per_port=0.4, kinds=None):
+    """Widen the header port aliases of a Verilog AD (in place) to the port expressions IEEE 1364-2001 12.3.3 allows: an identifier,
+    a bit-select, a part-select or a concatenation of those - in particular onto bits of the net that carries the port's own name.
+    gen_hier only makes single-bit breakouts onto 1-bit nets .p({\\p[1] , \\p[0] }).  For a port p of width w that has its plain
+    same-named net p[w-1:0], one of
+      own-permuted  net p unchanged, pin k joined to p[perm(k)], perm not the identity             .p({p[0], p[2], p[1]})
+      own-offset    net p re-based at b0 > 0, pin k joined to p[b0 + k]                            .p(p[6:5])      input [6:5] p;
+      own-subrange  net p widened (and possibly re-based), pins on a contiguous sub-range of it,   .p(p[3:1])      input [4:0] p;
+                    or on an arbitrary selection of its bits                                       .p({p[4], p[0], p[2]})
+      own-mixed     some pins stay on bits of p (possibly permuted among themselves), the others   .p({x, p[0], y[1]})
+                    move with their connections to fresh nets
+      other         net p replaced by a differently named vector net, in order or permuted         .p(al_n0[4:2])  .p({al_n0[2], al_n0[4], al_n0[3]})
+      shared        a second port q of the same direction loses its net and takes further bits of  .p(p[1:0]), .q(p[4:2])   input [4:0] p;
+                    the (widened) net p
+    Everything already joined to a bit of p (instance pins, assign operands) follows that bit to its new index / net.
+    Returns the list of (definition, port, kind) changed; draws only from r."""
+    out = []
+    if r.random() >= p:
+        return out
+    for l in ad['libraries']:
+        if l['name'] == 'hdi_primitives':
+            continue
+        for d in l['definitions']:
+            if d['cables'] or d['instances']:
+                out += _alias_definition(d, r, per_port, kinds or ALIAS_KINDS)
+    return out
+
+
+def _alias_definition(d, r, per_port, kinds):
+    made = []
+    nets = {(n['cable'], n['bit']): list(n['endpoints']) for n in d['nets']}
+    aliases = dict(d.get('aliases') or {})
+    taken = set(c['name'] for c in d['cables']) | set(q['name'] for q in d['ports']) | set(i['name'] for i in d['instances'])
+    busy = set()
+
+    def cable(name):
+        return [c for c in d['cables'] if c['name'] == name][0]
+
+    def in_assign(name):
+        return any(name in (a['lhs'][0], a['rhs'][0]) for a in d.get('assigns', []))
+
+    def fresh(width, base):
+        k = 0
+        while 'al_n%d' % k in taken:
+            k += 1
+        taken.add('al_n%d' % k)
+        d['cables'].append({'name': 'al_n%d' % k, 'width': width, 'base': base})
+        return 'al_n%d' % k
+
+    def eligible(q):
+        if q['name'] in aliases or q['name'] in busy or q['name'].startswith('\\'):
+            return False
+        cs = [c for c in d['cables'] if c['name'] == q['name']]
+        return len(cs) == 1 and cs[0]['width'] == q['width'] and cs[0]['base'] == 0 and not cs[0].get('attrs')
+
+    def relocate(old, new, delta):
+        """net (old, b) becomes (new, b + delta) for every b, assign operands included (the placement is a shift)"""
+        for (c, b) in sorted(k for k in nets if k[0] == old):
+            nets[('\0tmp', b + delta)] = nets.pop((c, b))
+        for (c, b) in sorted(k for k in nets if k[0] == '\0tmp'):
+            nets[(new, b)] = nets.pop((c, b))
+        for a in d.get('assigns', []):
+            for side in ('lhs', 'rhs'):
+                if a[side][0] == old:
+                    a[side] = [new, a[side][1] + delta, a[side][2] + delta]
+
+    def join(q, tgt):
+        """pin k of port q is joined to tgt[k] = (net, bit) and to nothing else"""
+        for key in list(nets):
+            nets[key] = [ep for ep in nets[key] if not (ep[0] == 'port' and ep[1] == q['name'])]
+        for k, key in enumerate(tgt):
+            nets.setdefault(tuple(key), []).append(['port', q['name'], k])
+        aliases[q['name']] = [[tgt[k][0], tgt[k][1]] for k in range(len(tgt) - 1, -1, -1)]
+
+    for q in list(d['ports']):
+        if not eligible(q) or r.random() >= per_port:
+            continue
+        pn, w = q['name'], q['width']
+        partners = [x for x in d['ports'] if x is not q and eligible(x) and x['direction'] == q['direction']]
+        ks = [k for k in kinds if not ((k in ('own-permuted', 'own-mixed') and w < 2) or (k == 'shared' and not partners))]
+        if not ks:
+            continue
+        kind = r.choice(ks)
+        busy.add(pn)
+        cb = cable(pn)
+        if kind == 'own-permuted':
+            perm = list(range(w))
+            while perm == list(range(w)):
+                r.shuffle(perm)
+            join(q, [(pn, perm[k]) for k in range(w)])
+        elif kind == 'own-offset':
+            b0 = r.choice([1, 2, 5])
+            cb['base'] = b0
+            relocate(pn, pn, b0)
+            join(q, [(pn, b0 + k) for k in range(w)])
+        elif kind == 'own-subrange':
+            extra = r.choice([1, 1, 2])
+            base = r.choice([0, 0, 1, 3])
+            off = r.randint(0, extra)
+            cb['width'], cb['base'] = w + extra, base
+            relocate(pn, pn, base + off)
+            if r.random() < 0.7:
+                sel = list(range(off, off + w))
+            else:
+                sel = r.sample(range(w + extra), w)
+            join(q, [(pn, base + sel[k]) for k in range(w)])
+        elif kind == 'other':
+            extra = r.choice([0, 0, 1, 2])
+            base = r.choice([0, 0, 2, 5])
+            off = r.randint(0, extra)
+            if w + extra == 1:
+                base = 0
+            new = fresh(w + extra, base)
+            relocate(pn, new, base + off)
+            d['cables'].remove(cb)
+            sel = list(range(off, off + w))
+            if w > 1 and r.random() < 0.5:
+                while sel == list(range(off, off + w)):
+                    r.shuffle(sel)
+            join(q, [(new, base + sel[k]) for k in range(w)])
+        elif kind == 'own-mixed':
+            moved = sorted(r.sample(range(w), r.randint(1, w - 1)))
+            stay = [k for k in range(w) if k not in moved]
+            there = list(stay)
+            if len(stay) > 1 and r.random() < 0.5:
+                r.shuffle(there)
+            tgt = {k: (pn, there[j]) for j, k in enumerate(stay)}
+            if len(moved) > 1 and r.random() < 0.5:
+                base = r.choice([0, 0, 3])
+                vec = fresh(len(moved) + r.choice([0, 1]), base)
+                spots = [(vec, base + j) for j in range(len(moved))]
+                r.shuffle(spots)
+            else:
+                spots = [(fresh(1, 0), 0) for _ in moved]
+            for k, spot in zip(moved, spots):
+                tgt[k] = spot
+                if not in_assign(pn) and r.random() < 0.7:        # the connections of that bit go with the pin
+                    nets[spot] = [ep for ep in nets.get((pn, k), []) if ep[0] != 'port']
+                    nets[(pn, k)] = [ep for ep in nets.get((pn, k), []) if ep[0] == 'port']
+            join(q, [tgt[k] for k in range(w)])
+        elif kind == 'shared':
+            x = r.choice(partners)
+            busy.add(x['name'])
+            xn, xw = x['name'], x['width']
+            gap, extra = r.choice([0, 0, 1]), r.choice([0, 0, 1])
+            base = r.choice([0, 0, 1])
+            if r.random() < 0.5:
+                op, ox = 0, w + gap
+            else:
+                ox, op = 0, xw + gap
+            cb['width'], cb['base'] = w + xw + gap + extra, base
+            relocate(pn, pn, base + op)
+            relocate(xn, pn, base + ox)
+            d['cables'].remove(cable(xn))
+            join(q, [(pn, base + op + k) for k in range(w)])
+            join(x, [(pn, base + ox + k) for k in range(xw)])
+            made.append((d['name'], xn, 'shared-partner'))
+        made.append((d['name'], pn, kind))
+    if made:
+        d['aliases'] = aliases
+        d['nets'] = [{'cable': c, 'bit': b, 'endpoints': eps} for (c, b), eps in sorted(nets.items()) if eps]
+    return made
 
 
 class Plan:
@@ -68,7 +253,7 @@ class Plan:
             used = set(c for (i, p, b), (c, bb) in conn.items())
             for a in d.get('assigns', []):
                 used.add(a['lhs'][0]); used.add(a['rhs'][0])
-            pn = set(p['name'] for p in d['ports']) | set(x for al in d.get('aliases', {}).values() for x in al)
+            pn = set(p['name'] for p in d['ports']) | alias_cables(d)
             for c in d['cables']:
                 if c['name'] not in pn and c['width'] == 1 and c['base'] == 0 and c['name'] in used and not c.get('attrs') \
                         and c['name'] not in CONST and r.random() < style['implicit']:
@@ -95,6 +280,9 @@ class Writer:
         self.ad, self.style = ad, style
         self.plan = plan or Plan(ad, style)
         self.r = random.Random('v-render:%s' % style['seed'])
+        # generators of their own for the later additions, so that everything else is rendered as it always was
+        self.ra = random.Random('v-attr:%s' % style['seed'])
+        self.rx = random.Random('v-alias:%s' % style['seed'])
         self.toks = []
 
     # ------------------------------------------------------------------ lexical layer
@@ -152,11 +340,28 @@ class Writer:
         return self.text()
 
     def attrs(self, a):
+        """the attributes of one construct: one (* k = v, ... *) group, or (style attr_groups) the same list cut into several groups
+        in front of the same construct, optionally (style attr_dup) preceded by a group whose value for one name is overridden later"""
         if not a:
             return
+        items = list(a.items())
+        groups = [items]
+        ra, st = self.ra, self.style
+        if st.get('attr_groups') and ra.random() < st['attr_groups']:
+            if len(items) > 1:
+                cuts = [j for j in range(1, len(items)) if ra.random() < 0.6] or [ra.randrange(1, len(items))]
+                groups = [items[i:j] for i, j in zip([0] + cuts, cuts + [len(items)])]
+            if ra.random() < st.get('attr_dup', 0):
+                k, v = ra.choice(items)
+                stale = ra.choice([x for x in [None, '"stale"', '7'] if x != v])
+                groups.insert(0, [(k, stale)])
+        for g in groups:
+            self.group(g)
+
+    def group(self, items):
         self.t('(*')
         first = True
-        for k, v in a.items():
+        for k, v in items:
             if not first:
                 self.t(',')
             first = False
@@ -191,12 +396,16 @@ class Writer:
             if j:
                 self.t(',')
             if p['name'] in aliases:
-                self.t('.' + p['name'], '(', '{')
-                for k, cn in enumerate(aliases[p['name']]):
-                    if k:
-                        self.t(',')
-                    self.t(self.ident(cn))
-                self.t('}', ')')
+                al = aliases[p['name']]
+                if all(isinstance(x, str) for x in al):
+                    self.t('.' + p['name'], '(', '{')
+                    for k, cn in enumerate(al):
+                        if k:
+                            self.t(',')
+                        self.t(self.ident(cn))
+                    self.t('}', ')')
+                else:
+                    self.t('.' + p['name'], '(', *self.alias_expr(d, al), ')')
                 continue
             if hdr == 'ansi':
                 self.t({'IN': 'input', 'OUT': 'output', 'INOUT': 'inout'}[p['direction']])
@@ -208,21 +417,41 @@ class Writer:
             ports = list(d['ports'])
             r.shuffle(ports)
             done = set()
+            declared = set()              # nets of [net, bit] aliases whose direction has been declared (two ports may share one)
             for p in ports:
                 if p['name'] in done:
                     continue
                 if p['name'] in aliases:
                     al = list(aliases[p['name']])
-                    r.shuffle(al)
-                    for cn in al:
-                        self.t({'IN': 'input', 'OUT': 'output', 'INOUT': 'inout'}[p['direction']], self.ident(cn), ';')
-                        self.nl()
+                    if all(isinstance(x, str) for x in al):
+                        r.shuffle(al)
+                        for cn in al:
+                            self.t({'IN': 'input', 'OUT': 'output', 'INOUT': 'inout'}[p['direction']], self.ident(cn), ';')
+                            self.nl()
+                    else:
+                        # the direction is declared on the nets of the port expression, each with its own range
+                        cab = {c['name']: c for c in d['cables']}
+                        names = []
+                        for x in al:
+                            cn = x if isinstance(x, str) else x[0]
+                            if cn not in names:
+                                names.append(cn)
+                        self.rx.shuffle(names)
+                        for cn in names:
+                            if cn in declared:
+                                continue
+                            declared.add(cn)
+                            self.port_attr()
+                            self.t({'IN': 'input', 'OUT': 'output', 'INOUT': 'inout'}[p['direction']],
+                                   *self.rng(cab[cn]['width'], cab[cn]['base']), self.ident(cn), ';')
+                            self.nl()
                     done.add(p['name'])
                     continue
                 grp = [p]
                 if st['group_decl']:
                     grp += [q for q in ports if q is not p and q['name'] not in done and q['name'] not in aliases
                             and q['direction'] == p['direction'] and q['width'] == p['width']]
+                self.port_attr()
                 self.t({'IN': 'input', 'OUT': 'output', 'INOUT': 'inout'}[p['direction']])
                 if r.random() < 0.15:
                     self.t('wire')
@@ -243,7 +472,7 @@ class Writer:
             self.t('endmodule')
             self.nl()
             return
-        pn = set(p['name'] for p in d['ports']) | set(x for al in aliases.values() for x in al)
+        pn = set(p['name'] for p in d['ports']) | alias_cables(d)
         decls = []
         for c in d['cables']:
             if c['name'] in pn:
@@ -271,6 +500,45 @@ class Writer:
                 self.nl()
         self.t('endmodule')
         self.nl()
+
+    def port_attr(self):
+        """(style port_attr) attribute groups in front of a body port declaration; the support page lists modules, instantiations
+        and wires/regs as the constructs that carry attributes, so nothing is expected of these except that they are consumed with
+        the declaration they stand in front of"""
+        ra, st = self.ra, self.style
+        if st.get('port_attr') and ra.random() < st['port_attr']:
+            for _ in range(ra.choice([1, 1, 2])):
+                self.group([(ra.choice(['IOB', 'port_only', 'X_INTERFACE_INFO']), ra.choice([None, '"TRUE"', '"p q"']))])
+
+    def alias_expr(self, d, al):
+        """tokens of the port expression of .p(expr); al: MSB-first entries, net name (1-bit net) or [net, bit]"""
+        rx, st = self.rx, self.style
+        cab = {c['name']: c for c in d['cables']}
+        runs = []
+        for x in al:
+            c, b = (x, cab[x]['base']) if isinstance(x, str) else (x[0], x[1])
+            if runs and runs[-1][0] == c and runs[-1][2] == b + 1 and rx.random() >= st.get('alias_split', 0.3):
+                runs[-1][2] = b
+            else:
+                runs.append([c, b, b])
+        pieces = []
+        for c, hi, lo in runs:
+            cb = cab[c]
+            full = hi == cb['base'] + cb['width'] - 1 and lo == cb['base']
+            if (cb['width'] == 1 and cb['base'] == 0) or (full and rx.random() < 0.4):
+                pieces.append([self.ident(c)])
+            elif hi == lo:
+                pieces.append([self.ident(c), '[', str(hi), ']'])
+            else:
+                pieces.append([self.ident(c), '[', str(hi), ':', str(lo), ']'])
+        if len(pieces) == 1 and rx.random() < 0.5:
+            return pieces[0]
+        out = ['{']
+        for j, pc in enumerate(pieces):
+            if j:
+                out.append(',')
+            out += pc
+        return out + ['}']
 
     def const_used(self, d, cname):
         for n in d['nets']:
